@@ -340,6 +340,8 @@ def c20(pid, tier, seed, scratch):
     files = [(seed * 100 + 1, 7, "tiny")] if tier == "quick" else [(seed * 100 + 1, 7, "tiny"), (seed * 100 + 2, 12, "corpus"), (seed * 100 + 3, 16, "corpus")]
     if tier == "quick":
         files.append((seed * 100 + 2, 10, "corpus"))
+    # a memory with one 1.2 MiB binary document: the streaming reader of large uncompressed payloads (few mutants: the file is big)
+    files.append((seed * 100 + 9, 4, "bigblob"))
     regions_seen = set()
     for fi, (fseed, ops, profile) in enumerate(files):
         wd = os.path.join(scratch, f"f{fi}")
@@ -353,7 +355,17 @@ def c20(pid, tier, seed, scratch):
         regs = regions_of(layout(bindir, path), len(data))
         exhaustive = tier == "thorough" and fi == 0
         muts = []
-        for name, s, e in regs:
+        if profile == "bigblob":
+            for name, s, e in regs:
+                if e - s > 1_000_000:
+                    muts += [{"kind": "flip", "off": rng.randrange(s, e), "xor": rng.choice([1, 0x80, 0xFF]), "region": name} for _ in range(24)]
+                    muts += [{"kind": "zero", "off": rng.randrange(s, e - 600), "len": rng.randrange(1, 512), "region": name, "shape": "random-range"} for _ in range(8)]
+                elif name.startswith("payload"):
+                    muts += flips_for_region(data, name, s, e, rng, 6, False)
+            regs_for_flips = []
+        else:
+            regs_for_flips = regs
+        for name, s, e in regs_for_flips:
             budget = 60 if tier == "quick" else 400
             if name == "unmapped" or name == "wal":
                 budget = 30
@@ -362,7 +374,8 @@ def c20(pid, tier, seed, scratch):
             if exhaustive and name == "toc":
                 budget = 3000
             muts += flips_for_region(data, name, s, e, rng, budget, exhaustive and name not in ("unmapped", "toc"))
-        muts += structural_mutants(data, regs, rng, 40 if tier == "quick" else 400)
+        if profile != "bigblob":
+            muts += structural_mutants(data, regs, rng, 40 if tier == "quick" else 400)
         _count(rep, "corpus_files")
         _count(rep, "corpus_bytes", len(data))
         results, baseline, deaths = run_plan(bindir, "c20", path, muts, os.path.join(wd, "run"), stall_s=120)
